@@ -20,7 +20,7 @@ RULE = ('Generated: rule-conforming antennas (free space / ideal ground, 0.1..10
 BUDGET = {'quick': {'examples': 1200, 'wall': 200}, 'thorough': {'examples': 40000, 'wall': 1500}}
 ASSUMPTIONS = ['feed impedance differences are compared with tolerance 1e-8 * cond(Z) relative',
                'skin effect: exact Bessel reference (mpmath); for |k a| >= 110 the documented asymptote is allowed 5e-3']
-LABEL_FLOORS = {'scn-feed': 0.2, 'scn-dist': 0.2, 'scn-noop': 0.1, 'load-on-junc': 0.05, 'load-on-gnd': 0.03,
+LABEL_FLOORS = {'several-statements-incl-whole-object': 0.05, 'scn-feed': 0.2, 'scn-dist': 0.2, 'scn-noop': 0.1, 'load-on-junc': 0.05, 'load-on-gnd': 0.03,
                 'rlc-all-three': 0.03, 'skin+ins-same-wire': 0.03, 'dist-by-tag': 0.05}
 
 
@@ -28,7 +28,7 @@ LABEL_FLOORS = {'scn-feed': 0.2, 'scn-dist': 0.2, 'scn-noop': 0.1, 'load-on-junc
 def case_strategy(draw, big=False):
     case = draw(gen.antenna(env_kinds=('free', 'ideal', 'ideal'), max_wires=4, max_seg=7 if not big else 12,
                             nsrc=(1, 1), tapers=False, allow_two=False))
-    scn = draw(st.sampled_from(['feed', 'feed', 'noop', 'dist', 'dist', 'dist']))
+    scn = draw(st.sampled_from(['feed', 'feed', 'noop', 'dist', 'dist', 'dist', 'multi']))
     case['scn'] = scn
     topo, objs = gen.stand_in_topology(case)
     src = case['sources'][0]
@@ -44,6 +44,41 @@ def case_strategy(draw, big=False):
                 at = src['_idx'] if draw(st.booleans()) else {'k': topo.per_obj[p.owner].index(p), 'tag': objs[p.owner]['tag']}
             l['attach'] = [at]
             lds.append(l)
+        case['loads'] = lds
+    elif scn == 'multi':
+        # one or two lumped loads, each attached through 2..3 statements of mixed form (absolute pulse, k-th pulse of an
+        # object, all pulses of an object) naming disjoint sets of pulses
+        objs_with = [i for i in range(len(objs)) if topo.per_obj[i]]
+        lds = []
+        free_objs = list(objs_with)
+        taken = set()
+        for i in range(draw(st.integers(1, 2))):
+            l = draw(gen.lumped_load(kinds=('z', 'z', 'rlc', 'trap')))
+            at = []
+            for j in range(draw(st.integers(2, 3))):
+                form = draw(st.sampled_from(['all-obj', 'all-obj', 'abs', 'obj']))
+                cand_o = [o_ for o_ in free_objs if not any(p.idx in taken for p in topo.per_obj[o_])]
+                if form == 'all-obj' and cand_o:
+                    o_ = draw(st.sampled_from(cand_o))
+                    free_objs.remove(o_)
+                    taken.update(p.idx for p in topo.per_obj[o_])
+                    at.append({'all': True, 'tag': objs[o_]['tag']})
+                else:
+                    cand_p = [p for p in topo.pulses if p.idx not in taken]
+                    if not cand_p:
+                        continue
+                    p = draw(st.sampled_from(cand_p))
+                    taken.add(p.idx)
+                    if p.owner in free_objs:
+                        free_objs.remove(p.owner)
+                    at.append(p.idx if form != 'obj' else {'k': topo.per_obj[p.owner].index(p), 'tag': objs[p.owner]['tag']})
+            if at:
+                l['attach'] = at
+                lds.append(l)
+        if not lds:
+            l = draw(gen.lumped_load(kinds=('z',)))
+            l['attach'] = [src['_idx']]
+            lds = [l]
         case['loads'] = lds
     elif scn == 'noop':
         k = draw(st.sampled_from(['zero', 'eps1', 'sigma-inf', 'sigma-rho']))
@@ -167,6 +202,43 @@ def check(case):
         scale = max(abs(z0), abs(z1), abs(tot))
         if abs((z1 - z0) - tot) > tol * scale:
             fails.append(('feed-sum:' + skind, 'feed impedance rises by %r, loads sum to %r (unloaded %r, cond %.3g)' % (z1 - z0, tot, z0, c)))
+    elif scn == 'multi':
+        nt = True
+        robjs = topo.objs
+        lds = case['loads']
+        alt = copy.deepcopy(case)
+        want = []
+        for l, la in zip(lds, alt['loads']):
+            idx = []
+            for a in l['attach']:
+                if isinstance(a, dict) and a.get('all'):
+                    w = [i for i, o in enumerate(robjs) if o['tag'] == a['tag']][0]
+                    idx += [p.idx for p in topo.per_obj[w]]
+                    labels.append('attach-all-object')
+                elif isinstance(a, dict):
+                    w = [i for i, o in enumerate(robjs) if o['tag'] == a['tag']][0]
+                    idx.append(topo.per_obj[w][a['k']].idx)
+                else:
+                    idx.append(a)
+            la['attach'] = list(idx)
+            want.append(idx)
+            if len(l['attach']) >= 2 and any(isinstance(a, dict) and a.get('all') for a in l['attach']):
+                labels.append('several-statements-incl-whole-object')
+        alt.pop('attach_perm', None)
+        # every loaded pulse carries its load exactly once: the matrix diagonal rises by the weight of the pulse
+        # times the load value, and the model equals the one with pulse-by-pulse attachment
+        npulses = sorted(p_.idx for ld_ in m.loads for p_ in ld_.pulses)
+        if npulses != sorted(i for w_ in want for i in w_):
+            fails.append(('multi:pulses', 'loads act on pulses %s (with multiplicity), the statements name %s'
+                          % ([i + 1 for i in npulses], [i + 1 for i in sorted(i for w_ in want for i in w_)])))
+        try:
+            m2 = common.solved(alt)
+            I1, I2 = np.array(m.current), np.array(m2.current)
+            e_ = np.abs(I1 - I2).max() / np.abs(I2).max()
+            if e_ > tol:
+                fails.append(('multi:currents', 'currents differ by %.3g from the model with the same loads attached pulse by pulse' % e_))
+        except build.Rejected as e:
+            fails.append(('multi:pulse-by-pulse-rejected', str(e)[:200]))
     elif scn == 'noop':
         k = case['noop']
         labels.append('noop-' + k)
